@@ -12,6 +12,7 @@ import (
 	"path/filepath"
 	"strconv"
 	"strings"
+	"syscall"
 	"time"
 
 	_ "verif/checks"
@@ -65,7 +66,22 @@ func budget(tier string) time.Duration {
 	return 4 * time.Minute
 }
 
+// limitMemory caps the address space of the child so that a library bug that allocates
+// proportionally to a forged count ends the child quickly (reported as a crash violation)
+// instead of exhausting the machine.
+func limitMemory() {
+	gb := uint64(24)
+	if s := os.Getenv("VERIF_MEM_GB"); s != "" {
+		if n, err := strconv.Atoi(s); err == nil && n > 0 {
+			gb = uint64(n)
+		}
+	}
+	lim := syscall.Rlimit{Cur: gb << 30, Max: gb << 30}
+	_ = syscall.Setrlimit(syscall.RLIMIT_AS, &lim)
+}
+
 func child(id, tier, out string) {
+	limitMemory()
 	ch := engine.Lookup(id)
 	if ch == nil {
 		fmt.Fprintln(os.Stderr, "unknown check", id)
@@ -196,7 +212,9 @@ func keyFile(id, key string) string {
 func tail(path string, n int) string {
 	b, _ := os.ReadFile(path)
 	if len(b) > n {
-		b = b[len(b)-n:]
+		// keep the head (the fatal error and the faulting goroutine) and the end
+		h := n * 2 / 3
+		return string(b[:h]) + "\n[...]\n" + string(b[len(b)-(n-h):])
 	}
 	return string(b)
 }
@@ -240,7 +258,10 @@ func supervise(id, tier string) int {
 	if !haveRes {
 		// The child died (fatal error, stack overflow, OOM, os.Exit): totality violation or harness bug.
 		rf := replayFile{Property: id, Key: "crash/child-died", Kind: "crash",
-			Desc: fmt.Sprintf("check process died: %v", runErr), Stderr: tail(errPath, 6000)}
+			Desc: fmt.Sprintf("check process died (fatal error, stack overflow or out of memory inside the code under test): %v", runErr), Stderr: tail(errPath, 6000)}
+		if rf.Stderr == "" {
+			rf.Stderr = "(no output: killed from outside)"
+		}
 		p := keyFile(id, rf.Key)
 		os.MkdirAll(filepath.Dir(p), 0o755)
 		b, _ := json.MarshalIndent(rf, "", " ")
